@@ -3,7 +3,7 @@ import Driver.Util
 /-
 Driver of the service-level crash model (C04 service part).  One command per line, one output line per command:
 
-  reset [root|user] [held]               empty domain (survivors run as uid 0 / as an ordinary user); held: a living holder's complete service exists
+  reset [held]                           empty domain; held: a living holder's complete service exists
   spawn <n> creator <who>                process <n>: `create` of the service (who 0 = the victim on node 0, 1 = the re-creator)
   spawn <n> opener                       process <n>: `open` by the victim (node 0)
   spawn <n> cleaner <pid>                process <n>: Node::list + try_remove_stale_resources of the victim's node
@@ -14,7 +14,7 @@ Driver of the service-level crash model (C04 service part).  One command per lin
   show <n>                               pc and results of <n>
   holderdrop                             the living holder drops its service in an orderly way
   ls                                     files by kind
-  scenario creator|opener <root 0|1> <fuseV|-> <fuseC|->     the whole experiment (Iox2.ServiceCrash.scenario)
+  scenario creator|opener <fuseV|-> <fuseC|->     the whole experiment (Iox2.ServiceCrash.scenario)
 -/
 namespace Driver.ServiceCrashD
 open Driver Iox2.ServiceCrash
@@ -65,7 +65,7 @@ def stepLine (s : St) (t : List String) : St × String :=
   match t with
   | "reset" :: opts =>
     let sh : Shared := if opts.contains "held" then heldService else {}
-    ({ sh := { sh with root := !opts.contains "user" }, th := [] }, "ok")
+    ({ sh := sh, th := [] }, "ok")
   | ["spawn", n, "creator", w] => ({ s with th := setTh s.th n (mkCreator (nat! w)) }, "ok")
   | ["spawn", n, "opener"] => ({ s with th := setTh s.th n mkOpener }, "ok")
   | ["spawn", n, "cleaner", p] => ({ s with th := setTh s.th n (mkCleaner (nat! p)) }, "ok")
@@ -96,8 +96,8 @@ def stepLine (s : St) (t : List String) : St × String :=
     | some th => (s, s!"pc={th.pc} result={optS sresName "-" th.sres} clean={optS cresName "hang" th.cres}")
   | ["holderdrop"] => ({ s with sh := holderDrop s.sh }, "ok")
   | ["ls"] => (s, lsS s.sh)
-  | ["scenario", kind, root, fv, fc] =>
-    let sh0 : Shared := if kind == "opener" then { heldService with root := root == "1" } else { root := root == "1" }
+  | ["scenario", kind, fv, fc] =>
+    let sh0 : Shared := if kind == "opener" then heldService else {}
     let o := scenario sh0 (if kind == "opener" then mkOpener else mkCreator 0) (fuseOf fv) (fuseOf fc) (kind == "opener")
     (s, s!"victim={optS sresName "-" o.victim} dead={if o.dead then 1 else 0} before={leftS o.before} clean1={optS cresName "hang" o.clean1} " ++
         s!"clean2={optS cresName "hang" o.clean2} after={leftS o.after} afterdrop={leftS o.afterDrop} recreate={optS sresName "-" o.recreate}")
